@@ -156,13 +156,16 @@ class Program:
 
     def _index_src(self, key, f):
         name = f.name
-        m = re.search(r'<impl at ([^>]*?):(\d+):\d+: \d+:\d+>', name)
+        m = re.search(r'<impl at ([^>]*?):(\d+):(\d+): \d+:(\d+)>', name)
         imp = None; gens = []
         meth = self.last_segment(name)
         if m:
             rel = self._relfile(m.group(1)); line = int(m.group(2))
             imp = self.si.impl_at(rel, line)
-            if imp is not None:
+            if imp is None:
+                imp = self.si.derive_at(rel, line, int(m.group(3)), int(m.group(4)))
+                if imp is not None: gens = list(imp['generics'])
+            elif imp is not None:
                 gens = list(imp['generics'])
                 chain = name[m.end():].lstrip(':')
                 first = strip_generics(chain).split('::')[0]
@@ -218,7 +221,7 @@ class Interp:
     def zst_value(self, ty, substs):
         ty = ty.strip()
         if ty.startswith('{closure@'):
-            return Agg(ty[:find_matching(ty, 0) + 1], [])
+            return Agg(ty[:find_matching(ty, 0) + 1], [], dict(substs))
         if ty.startswith('fn(') or ty.startswith('for<'):
             # "fn(args) -> ret {path}"  function item type
             m = re.search(r'\{(.*)\}$', ty)
@@ -239,6 +242,11 @@ class Interp:
             if key in self.prog.fns: return self.eval_const_item(key)
         if path in self.prog.fns and self.prog.fns[path].kind != 'fn':
             return self.eval_const_item(path)
+        segs_ = strip_generics(path).split('::')
+        if len(segs_) >= 2 and segs_[-2] in BUILTIN_ENUMS:
+            vs = BUILTIN_ENUMS[segs_[-2]]
+            for i_, (vn, ar) in enumerate(vs):
+                if vn == segs_[-1] and ar == 0: return Enum(segs_[-2], vn, i_, [])
         f = self.prog.fns.get(path)
         if f is not None and f.kind != 'fn':
             return self.eval_const_item(path)
@@ -326,7 +334,7 @@ class Interp:
         if v is UNINIT:
             raise Unsupported('read of uninitialised %s in %s' % (op[1].text, fr.fn.name[-60:]))
         if k == 'copy' and isinstance(v, Agg) and not v.ty.startswith('{closure'):
-            return Agg(v.ty, list(v.f))
+            return Agg(v.ty, list(v.f), v.substs)
         return v
 
     def op_ty(self, fr, op):
@@ -408,7 +416,7 @@ class Interp:
             else: cnt = int(m.group(1))
             return Agg('array', [deep_copy(v) for _ in range(cnt)])
         if k == 'closure':
-            return Agg(rv[1], [self.operand(fr, o) for o in rv[2].values()])
+            return Agg(rv[1], [self.operand(fr, o) for o in rv[2].values()], dict(fr.substs))
         if k == 'adt': return self.make_adt(fr, rv[1], rv[2])
         if k == 'cast': return self.cast(fr, rv[1], rv[2], rv[3])
         if k == 'shallow_init_box': return RBox(UNINIT)
@@ -616,7 +624,7 @@ class Interp:
         if f is None: raise Unsupported('closure body not found: ' + clo.ty)
         p0 = f.params[0][1]
         first = Ref([clo], 0) if p0.startswith('&') else clo
-        return self.run_fn(f, [first] + list(args), {})
+        return self.run_fn(f, [first] + list(args), clo.substs or {})
 
     def call_named(self, text, args, arg_tys, dest_ty):
         from resolve import resolve_call
